@@ -250,18 +250,27 @@ func (r *relay) processFrame(f http2.Frame) error {
 			r.destMu.Unlock()
 		} else {
 			var settings []http2.Setting
+			// The values of a SETTINGS frame are processed in the order they appear, with no other
+			// frame processing in between (https://tools.ietf.org/html/rfc7540#section-6.5.3): of
+			// several values for SETTINGS_INITIAL_WINDOW_SIZE only the last one ever comes into force,
+			// so queued frames may only be released under that one, after the whole frame was read.
+			var initialWindowSize *uint32
 			if err = f.ForeachSetting(func(s http2.Setting) error {
 				switch s.ID {
 				case http2.SettingHeaderTableSize:
 					r.peer.updateTableSize(s.Val)
 				case http2.SettingInitialWindowSize:
-					r.peer.updateInitialWindowSize(s.Val)
+					v := s.Val
+					initialWindowSize = &v
 				case http2.SettingMaxFrameSize:
 					r.peer.updateMaxFrameSize(s.Val)
 				}
 				settings = append(settings, s)
 				return nil
 			}); err == nil {
+				if initialWindowSize != nil {
+					r.peer.updateInitialWindowSize(*initialWindowSize)
+				}
 				r.destMu.Lock()
 				err = r.dest.WriteSettings(settings...)
 				r.destMu.Unlock()
